@@ -167,25 +167,27 @@ Proof.
   - destruct (destbos <? dmax * wchar_w c); [|exact K]. destruct (rmax_wstr c <? dmax); herr.
 Qed.
 
-(* the n-variants: the probes strnlen_s(dest, dmax) / handle_str_bos_overflow report a second time when
-   dmax itself exceeds RSIZE_MAX_STR (possible only with a known object size) or when slen exceeds a
-   known source size while the dest size is unknown; outside these regions: exactly one report *)
+(* the n-variants: the probe strnlen_s(dest, dmax) reports a second time when dmax itself exceeds
+   RSIZE_MAX_STR (possible only with a known object size), and handle_str_bos_overflow when the known dest
+   object size exceeds it; outside these regions: exactly one report.  (Before the repair of the
+   "slen exceeds src" exit the region also excluded an unknown dest size there: two reports.) *)
 Definition n_region_ok (c : cfg) (dmax slen destbos srcbos : Z) : Prop :=
-  dmax <= rmax_str c /\ (srcbos = BOS_UNKNOWN \/ slen <= srcbos \/ (destbos <> BOS_UNKNOWN /\ 1 <= destbos <= rmax_str c)).
+  dmax <= rmax_str c /\ (srcbos = BOS_UNKNOWN \/ slen <= srcbos \/ destbos = BOS_UNKNOWN \/ 1 <= destbos <= rmax_str c).
 
 Lemma slen_max_clear_hspec c d dmax : d <> 0 -> 1 <= dmax <= rmax_str c ->
   hspec (report_post HStr) [] (slen_max_clear c d dmax).
 Proof. intros Hd Hm. unfold slen_max_clear. apply strnlen_s_prog_hspec_ok; auto. intros len. herr. Qed.
 
-Lemma srcbos_branch_hspec c d destbos srcbos slen (k : prog Z) : d <> 0 ->
-  (srcbos = BOS_UNKNOWN \/ slen <= srcbos \/ (destbos <> BOS_UNKNOWN /\ 1 <= destbos <= rmax_str c)) ->
+Lemma srcbos_branch_hspec c d dmax destbos srcbos slen (k : prog Z) : d <> 0 -> 1 <= dmax <= rmax_str c ->
+  (srcbos = BOS_UNKNOWN \/ slen <= srcbos \/ destbos = BOS_UNKNOWN \/ 1 <= destbos <= rmax_str c) ->
   hspec (report_post HStr) [] k ->
-  hspec (report_post HStr) [] (if negb (srcbos =? BOS_UNKNOWN) && (srcbos <? slen) then bos_overflow c d destbos else k).
+  hspec (report_post HStr) [] (if negb (srcbos =? BOS_UNKNOWN) && (srcbos <? slen) then bos_overflow c d (if destbos =? BOS_UNKNOWN then dmax else destbos) else k).
 Proof.
-  intros Hd Hs Hk. destruct (negb (srcbos =? BOS_UNKNOWN) && (srcbos <? slen)) eqn:E; [|exact Hk].
+  intros Hd Hm Hs Hk. destruct (negb (srcbos =? BOS_UNKNOWN) && (srcbos <? slen)) eqn:E; [|exact Hk].
   apply andb_prop in E. destruct E as [E1 E2]. apply negb_true_iff in E1.
-  destruct Hs as [->|[Hs|[Hs1 Hs2]]]; [rewrite Z.eqb_refl in E1; discriminate|lia|].
-  apply bos_overflow_hspec; auto.
+  destruct Hs as [->|[Hs|[->|Hs]]]; [rewrite Z.eqb_refl in E1; discriminate|lia| |].
+  - rewrite Z.eqb_refl. apply bos_overflow_hspec; auto.
+  - destruct (destbos =? BOS_UNKNOWN); apply bos_overflow_hspec; auto.
 Qed.
 
 Lemma strncpy_s_hspec c d dmax s slen destbos srcbos : 0 <= dmax -> (destbos = BOS_UNKNOWN \/ 1 <= destbos) ->
@@ -197,7 +199,7 @@ Proof.
   apply chk_dest_str_hspec; auto. intros Hd H1.
   destruct (s =? 0); [herr|].
   destruct (rmax_str c <? slen); [apply slen_max_clear_hspec; auto; lia|].
-  apply srcbos_branch_hspec; auto. destruct (d <? s); apply copy_loop_rep.
+  apply srcbos_branch_hspec; auto; try lia. destruct (d <? s); apply copy_loop_rep.
 Qed.
 
 (* strncat_s with slen = 0 reports the code it computed, which is 0 when dest is terminated: refuted below *)
@@ -210,7 +212,7 @@ Proof.
   apply chk_dest_str_hspec; auto. intros Hd H1.
   destruct (s =? 0); [herr|].
   destruct (rmax_str c <? slen); [apply slen_max_clear_hspec; auto; lia|].
-  apply srcbos_branch_hspec; auto. destruct (d <? s); apply find_end_rep; intros; apply copy_loop_rep.
+  apply srcbos_branch_hspec; auto; try lia. destruct (d <? s); apply find_end_rep; intros; apply copy_loop_rep.
 Qed.
 
 Lemma strnlen_s_hspec c str smax bos :
